@@ -209,9 +209,10 @@ pub fn run_case(c: &Case, r: &mut Report) {
     r.sample(json!({"config": tag, "builds": n, "threads": c.threads, "distinct_nonces": seen.len(), "distinct_tokens": tokset.len(), "max_bit_deviation": worst, "bit_bound": bound, "min_distinct_per_byte": min_distinct, "first_nonces": nonces.iter().take(3).map(|x| util::hex(x)).collect::<Vec<_>>()}));
 }
 
-/// Fault injection (hook `verif::set_rng_fault`): while the system RNG "fails", no local builder may hand out a token —
-/// a token produced then cannot carry a fresh nonce (e.g. a fallback to a default/zero nonce).  After the fault is
-/// cleared the same builder must work again and produce distinct nonces.
+/// Fault injection (hook `verif::set_rng_fault`): while the system RNG "fails", a local builder either fails or
+/// (if its nonce source is not the faulted one) hands out tokens whose nonces are still pairwise distinct; a fallback to
+/// a default/zero/input-derived nonce shows up as a repeat.  After the fault is cleared the same builder must work again
+/// and produce distinct nonces.
 pub fn rng_fault(r: &mut Report) {
     let key = KeyMat::sym(*b"wubbalubbadubdubwubbalubbadubdub");
     for &p in &LOCALS {
@@ -228,14 +229,33 @@ pub fn rng_fault(r: &mut Report) {
             let replay = json!({"cmd": "C10", "note": "RNG fault-injection case: re-run the check", "protocol": p.name(), "layer": layer.name()});
             let leaked: Vec<&Out<String>> = during.iter().chain(during_reuse.iter()).filter(|o| !o.is_err()).collect();
             if !leaked.is_empty() {
-                let nonce = leaked[0].ok().and_then(|t| crate::c03::parts(p, t)).map(|x| util::hex(&x.payload[..p.nonce_len().min(x.payload.len())])).unwrap_or_default();
-                r.violation(
-                    format!("C10 token-produced-while-rng-fails {}", tag),
-                    format!("{}: with the system RNG failing, {} of {} builds still returned {} (nonce field of the first: {})", tag, leaked.len(), during.len() + during_reuse.len(), leaked[0].class(), nonce),
-                    replay,
-                );
+                // The property is "no nonce is used twice", not "builds fail when the RNG fails": a builder that draws its
+                // nonce from a source the fault switch does not reach hands out tokens with FRESH nonces, which is fine.
+                // What the fault is there to expose is a fallback to a stale / default / input-derived nonce: then the
+                // tokens built under identical inputs while the fault is armed share their nonce field.
+                let nonce_of = |t: &String| crate::c03::parts(p, t).map(|x| util::hex(&x.payload[..p.nonce_len().min(x.payload.len())])).unwrap_or_default();
+                let ns: Vec<String> = leaked.iter().filter_map(|o| o.ok()).map(|t| nonce_of(t)).collect();
+                let mut all: HashSet<String> = after.iter().filter_map(|o| o.ok()).map(|t| nonce_of(t)).collect();
+                let mut repeated: Option<String> = None;
+                for n in &ns {
+                    if !all.insert(n.clone()) {
+                        repeated = Some(n.clone());
+                        break;
+                    }
+                }
+                if let Some(n) = repeated {
+                    r.violation(
+                        format!("C10 nonce-reused-while-rng-fails {}", tag),
+                        format!("{}: with the system RNG failing, {} of {} builds still returned a token and the nonce field {} occurs more than once among them and the builds after the fault", tag, leaked.len(), during.len() + during_reuse.len(), n),
+                        replay,
+                    );
+                } else {
+                    r.count(&format!("{} rng-fault: tokens handed out with pairwise distinct nonces (fault switch not on this builder's path)", tag));
+                    r.count(&format!("{} rng-fault: no nonce repeated", tag));
+                }
             } else {
                 r.count(&format!("{} rng-fault: every build failed closed", tag));
+                r.count(&format!("{} rng-fault: no nonce repeated", tag));
                 for o in during.iter().take(1) {
                     r.see("error variants while the RNG fails", o.err().unwrap_or("?"));
                 }
@@ -256,6 +276,96 @@ pub fn rng_fault(r: &mut Report) {
     }
 }
 
+/// Idle pauses: builds, a pause of real time, more builds ON THE SAME THREAD (fresh builders, and one batteries-included
+/// builder kept across the pauses).  A nonce source that re-seeds, rewinds or re-reads a clock after an idle period shows
+/// up as a nonce that was already used before the pause; tight loops of any length never see it.
+pub fn pause_histories(tier: &str, r: &mut Report) {
+    let key = KeyMat::sym(*b"wubbalubbadubdubwubbalubbadubdub");
+    let pauses: Vec<u64> = if tier == "thorough" { vec![1300, 3100, 11_000, 31_000] } else { vec![1300] };
+    let mut total = Report::new();
+    std::thread::scope(|s| {
+        let mut hs = Vec::new();
+        for &p in &LOCALS {
+            for layer in [Layer::Generic, Layer::Batteries] {
+                for &ms in &pauses {
+                    let key = key.clone();
+                    hs.push(s.spawn(move || {
+                        let mut r = Report::new();
+                        let tag = format!("{}/{}", p.name(), layer.name());
+                        let c = Case { p, layer, reuse: false, n: 6, threads: 1 };
+                        let c_reuse = Case { reuse: true, ..c.clone() };
+                        let mut kept = if layer == Layer::Batteries { Some(batteries_session(p, &key)) } else { None };
+                        if let Some(k) = kept.as_mut() {
+                            for op in [BOp::Set(Claim::Exp("2999-01-01T00:00:00+00:00".into())), BOp::Set(Claim::Iat("2020-01-01T00:00:00+00:00".into())), BOp::Set(Claim::Nbf("2020-01-01T00:00:00+00:00".into())), BOp::Footer("ftr".into())] {
+                                let _ = k.step(&op);
+                            }
+                        }
+                        let mut toks: Vec<(usize, String)> = Vec::new();
+                        let mut failed = 0usize;
+                        for phase in 0..3usize {
+                            if phase > 0 {
+                                std::thread::sleep(std::time::Duration::from_millis(ms));
+                            }
+                            let mut outs = build_many(&c, &key, 6);
+                            outs.extend(build_many(&c_reuse, &key, 6));
+                            if let Some(k) = kept.as_mut() {
+                                for _ in 0..4 {
+                                    if let Some(o) = k.step(&BOp::Build) {
+                                        outs.push(o);
+                                    }
+                                }
+                            }
+                            for o in outs {
+                                match o {
+                                    Out::Ok(t) => toks.push((phase, t)),
+                                    _ => failed += 1,
+                                }
+                            }
+                        }
+                        r.evaluations += (toks.len() + failed) as u64;
+                        if toks.len() < 30 {
+                            r.inconclusive.push(format!("{} pause history: only {} tokens built ({} failed)", tag, toks.len(), failed));
+                            return r;
+                        }
+                        let nl = p.nonce_len();
+                        let mut seen: std::collections::HashMap<Vec<u8>, (usize, usize)> = std::collections::HashMap::new();
+                        let mut hit = None;
+                        for (i, (phase, t)) in toks.iter().enumerate() {
+                            if let Some(pt) = crate::c03::parts(p, t) {
+                                if pt.payload.len() >= nl {
+                                    if let Some(prev) = seen.insert(pt.payload[..nl].to_vec(), (i, *phase)) {
+                                        hit = Some((prev, (i, *phase), util::hex(&pt.payload[..nl])));
+                                        break;
+                                    }
+                                }
+                            }
+                        }
+                        match hit {
+                            Some(((i0, ph0), (i1, ph1), n)) => r.violation(
+                                format!("C10 nonce-repeated-after-idle-pause {}", tag),
+                                format!("{}: builds on one thread with idle pauses of {} ms between three bursts: build #{} (burst {}) and build #{} (burst {}) carry the same nonce {}", tag, ms, i0, ph0, i1, ph1, n),
+                                json!({"cmd": "C10", "note": "idle-pause history: re-run the check", "protocol": p.name(), "layer": layer.name(), "pause_ms": ms}),
+                            ),
+                            None => {
+                                r.count(&format!("{} idle-pause history all-distinct", tag));
+                                r.distinct(format!("{}|pause={}ms", tag, ms));
+                            }
+                        }
+                        r
+                    }));
+                }
+            }
+        }
+        for h in hs {
+            match h.join() {
+                Ok(x) => total.merge(x),
+                Err(_) => total.inconclusive.push("pause-history worker died".into()),
+            }
+        }
+    });
+    r.merge(total);
+}
+
 pub fn cases(tier: &str) -> Vec<Case> {
     let thorough = tier == "thorough";
     let mut v = Vec::new();
@@ -265,6 +375,9 @@ pub fn cases(tier: &str) -> Vec<Case> {
                 v.push(Case { p, layer, reuse, n: 4096, threads: 1 });
             }
         }
+        // several threads minting at once (each its own builders): per-thread nonce sources must not run in lock-step
+        v.push(Case { p, layer: Layer::Generic, reuse: false, n: 8192, threads: 8 });
+        v.push(Case { p, layer: Layer::Batteries, reuse: true, n: 8192, threads: 8 });
         if thorough {
             v.push(Case { p, layer: Layer::Generic, reuse: false, n: 102_400, threads: 16 });
             v.push(Case { p, layer: Layer::Batteries, reuse: true, n: 102_400, threads: 16 });
@@ -280,12 +393,14 @@ pub fn run(tier: &str, _seed: u64) -> Report {
         run_case(&c, &mut r);
     }
     rng_fault(&mut r);
+    pause_histories(tier, &mut r);
     for &p in &LOCALS {
         for l in ["generic", "batteries"] {
             for m in ["one-builder", "fresh-builder"] {
                 r.require(&format!("{}/{}/{} all-distinct", p.name(), l, m), 1);
             }
-            r.require(&format!("{}/{} rng-fault: every build failed closed", p.name(), l), 1);
+            r.require(&format!("{}/{} rng-fault: no nonce repeated", p.name(), l), 1);
+            r.require(&format!("{}/{} idle-pause history all-distinct", p.name(), l), 1);
         }
     }
     r
@@ -300,4 +415,4 @@ pub fn replay(case: &Value) -> Report {
     r
 }
 
-pub const RULE: &str = "one case = a history of N builds (quick N=4096; thorough additionally N=102400 and N=1024000 built concurrently from 16 threads) under one key with IDENTICAL claims, footer and assertion, for v1-v4 local x {GenericBuilder, PasetoBuilder with exp/iat/nbf pinned} x {fresh builder per build, one builder reused}; the nonce field of every token is extracted (32 bytes, v2: 24). Monitors: pairwise-distinct nonces and tokens, per-bit one-frequency within N/2 +- 5.3*sqrt(N), no constant byte position; the whole run is executed in two separate processes and the first 64 nonces of every history are compared across processes (fixed-seed PRNG). Fault injection through the hook verif::set_rng_fault: while the system RNG fails every build must fail (no token, hence no stale/default nonce), and succeed again with distinct tokens once the fault is cleared. distinct_nontrivial = distinct (version, layer, builder mode, N, threads) histories that built >= 1000 tokens";
+pub const RULE: &str = "one case = a history of N builds (quick N=4096 on one thread and N=8192 minted concurrently by 8 threads; thorough additionally N=102400 and N=1024000 from 16 threads) under one key with IDENTICAL claims, footer and assertion, for v1-v4 local x {GenericBuilder, PasetoBuilder with exp/iat/nbf pinned} x {fresh builder per build, one builder reused}; the nonce field of every token is extracted (32 bytes, v2: 24). Monitors: pairwise-distinct nonces and tokens, per-bit one-frequency within N/2 +- 5.3*sqrt(N), no constant byte position; the whole run is executed in two separate processes and the first 64 nonces of every history are compared across processes (fixed-seed PRNG). Idle-pause histories: three bursts of builds on ONE thread (fresh builders, a reused one and a batteries-included builder kept across the pauses) separated by 1.3 s (thorough also 3.1, 11 and 31 s) of idle time: no nonce may recur across a pause. Fault injection through the hook verif::set_rng_fault: while the system RNG fails, 16 builds under identical inputs must either fail or carry pairwise distinct nonces (a fallback to a stale/default/input-derived nonce repeats), and builds must succeed again with distinct tokens once the fault is cleared. distinct_nontrivial = distinct (version, layer, builder mode, N, threads) histories that built >= 1000 tokens";
